@@ -7,7 +7,7 @@
 (* declarative group grammar (same trees, error exactly for an ill-formed  *)
 (* or truncated group).  Every input is emitted as a CASE.                 *)
 (***************************************************************************)
-EXTENDS BracketReader, Json
+EXTENDS BracketReader, BracketAbs, Json
 CONSTANTS L, Opts, Sep, Texts
 VARIABLES inp, cfg
 Init == inp = <<>> /\ cfg = Rd0(1)
@@ -30,5 +30,12 @@ InvDecl ==
   /\ [i \in 1..Len(a.out) |-> Bare(a.out[i].item)] = [i \in 1..Len(d.out) |-> Bare(d.out[i])]
 \* stepwise = fold
 InvFold == cfg = FoldLeft(LAMBDA c, t : RdStep(c, t, Opts, Sep), Rd0(1), inp)
+\* the queue-length abstraction commutes with RdStep: the abstract automaton of BracketAbs (whose invariant
+\* Apalache proves inductive, for inputs of every length) run on the input history gives the projected state
+AbsOf(c) == [state |-> c.state, level |-> Len(c.queue), termCnt |-> c.termCnt, cnt |-> c.cnt,
+             nout |-> Len(c.out), err |-> c.err]
+InvAbs == LET abs == FoldLeft(LAMBDA x, t : AStep(x, t.c, "brackets_emptypos" \in Opts), A0(1), inp) IN
+          /\ AbsOf(cfg) = abs
+          /\ AInv(abs, 1)
 Emit == PrintT("CASE " \o ToJson([toks |-> [i \in 1..Len(inp) |-> <<inp[i].c, inp[i].x>>]]))
 =============================================================================
